@@ -120,11 +120,14 @@ theorem mkRec_elide (E : Env) : ∀ n, RecRel (mkRec E.elide n) (mkRec E n)
       simp only [mkRec, Env.elide_fsigs]
       have : E.elide.types = E.types := rfl
       rw [this]
-      exact elide_execI E.types E.fsigs _ _ ih (.loop bt b) s
+      split
+      · rfl
+      · exact elide_execI E.types E.fsigs _ _ ih (.loop bt b) _
 
 /-- **calls into the elided module mean what they meant before**, for every gas budget -/
-theorem invoke_elide (E : Env) (gas : Nat) : invoke E.elide gas = invoke E gas :=
-  (mkRec_elide E (gas + 1)).call
+theorem invoke_elide (E : Env) (gas : Nat) : invoke E.elide gas = invoke E gas := by
+  unfold invoke
+  rw [(mkRec_elide E (gas + 1)).call]
 
 /-- **the whole observation is unchanged**: instantiation outcome, every result and trap of every
     call of the script, the host-call trace and the exported state -/
